@@ -12,7 +12,7 @@ from . import c01, c02
 from .toposort_rules import check_toposort
 
 PROP = "C20"
-FLOORS = {"C20.R1": 25, "C20.R2": 25, "C20.R3": 30, "C20.R4": 4, "C20.R5": 6, "C20.R6": 3}
+FLOORS = {"C20.R1": 25, "C20.R2": 25, "C20.R3": 30, "C20.R4": 4, "C20.R5": 6, "C20.R6": 3, "C20.R7": 1, "C20.R8": 6}
 META = {
     "explanation": "Build independence: Cython runs __cinit__ base-first, the pure-Python simulation in BaseRef.__init__ runs them "
                    "derived-first, so along every MRO each field is assigned by exactly one __cinit__, no __cinit__ reads a field "
@@ -66,6 +66,17 @@ def _cinit_rules(col):
                     nm = A.dotted(arg.annotation) or A.src(arg.annotation)
                     if nm.split(".")[-1] in EXACT_TYPES or nm.startswith("cython.") or nm in rm.by_name:
                         typed.append(f"{mname}({arg.arg}: {nm})")
+        # ... and so do annotated locals and return annotations of cclass methods (cython.bint coerces to a truth value, ...)
+        for mname, fn in c.methods.items():
+            for n_ in A.walk(fn):
+                if isinstance(n_, ast.AnnAssign) and isinstance(n_.target, ast.Name):
+                    nm = A.dotted(n_.annotation) or A.src(n_.annotation)
+                    if nm.split(".")[-1] in EXACT_TYPES or nm.startswith("cython."):
+                        typed.append(f"{mname}: local {n_.target.id}: {nm}")
+            if fn.returns is not None:
+                nm = A.dotted(fn.returns) or A.src(fn.returns)
+                if nm.split(".")[-1] in EXACT_TYPES or nm.startswith("cython."):
+                    typed.append(f"{mname}() -> {nm}")
         col.add("C20.R3", f"{q}#no-enforced-parameter-types", not typed, c.module.loc(c.node),
                 "no method parameter of a cclass is annotated with a type Cython enforces (the compiled build would raise TypeError where "
                 "the pure build accepts the value)", str(typed))
@@ -282,6 +293,50 @@ def _builtin_attr_assignment(col, rule="C20.R4"):
                 "" if same else f"compiled only: {sorted(per['T'] - per['F'])}; pure only: {sorted(per['F'] - per['T'])}")
 
 
+def _hash_ordering_sites(tree) -> list:
+    """AST nodes that order or branch on hash()/id() values: `hash(a) < hash(b)`, `x._hash > y._hash`,
+    `sorted(xs, key=hash)`, `min/max(..., key=id)`"""
+    def hashy(e):
+        if isinstance(e, ast.Call) and isinstance(e.func, ast.Name) and e.func.id in ("hash", "id"):
+            return True
+        if isinstance(e, ast.Attribute) and e.attr in ("_hash", "__hash__"):
+            return True
+        if isinstance(e, ast.Call) and isinstance(e.func, ast.Attribute) and e.func.attr == "__hash__":
+            return True
+        return False
+    out = []
+    for n in ast.walk(tree):
+        if isinstance(n, ast.Compare) and any(isinstance(o, (ast.Lt, ast.LtE, ast.Gt, ast.GtE)) for o in n.ops) \
+                and any(hashy(x) for x in [n.left] + list(n.comparators)):
+            out.append(n)
+        if isinstance(n, ast.Call) and (A.call_name(n) or "").split(".")[-1] in ("sorted", "min", "max", "sort", "argsort"):
+            for kw in n.keywords:
+                if kw.arg == "key" and ((isinstance(kw.value, ast.Name) and kw.value.id in ("hash", "id")) or
+                                        (isinstance(kw.value, ast.Lambda) and any(hashy(x) for x in ast.walk(kw.value.body)))):
+                    out.append(n)
+    return out
+
+
+def _no_hash_ordering(col, rule="C20.R7"):
+    """hash values depend on the string-hash seed and (the 32-bit C field) on the build: they may be compared for equality,
+    never ordered or used as a sort key -- a canonical form, a tie-break or an iteration order derived from them differs
+    between runs"""
+    # positive control: the detector must see the three spellings (the expected count on the tree is zero)
+    probe = ast.parse("def f(a, b, xs):\n    if hash(b) < hash(a): a, b = b, a\n    ys = sorted(xs, key=hash)\n    return a._hash >= b._hash, ys\n")
+    if len(_hash_ordering_sites(probe)) != 3:
+        raise AnalysisError("C20.R7: the hash-ordering detector does not match its positive control")
+    repo = col.repo
+    n = 0
+    for m, c, fn in repo.all_functions():
+        n += 1
+        for site in _hash_ordering_sites(fn):
+            q = f"{c.name}.{fn.name}" if c else fn.name
+            col.fail(rule, f"{q}#orders-by-hash", m.loc(site),
+                     "no decision or order is derived from the magnitude of a hash()/id() value", A.src(site)[:100])
+    col.ok(rule, "package#no-ordering-on-hash-values", "xdeps/", "no function orders, sorts or branches on the magnitude of a hash/id value",
+           f"{n} functions scanned; positive control matched")
+
+
 C_NUMERIC = ("int", "long", "cython.int", "cython.long", "cython.longlong", "cython.Py_hash_t", "cython.double", "float", "cython.float")
 
 
@@ -403,6 +458,7 @@ def check(col: Collector):
     _build_independent_routing(col)
     _builtin_attr_assignment(col)
     _c_typed_fields(col)
+    _no_hash_ordering(col)
     _unordered(col)
     # one visited set shared across start vertices => any start order yields a valid order (acyclic case)
     check_toposort(col, "C20.R5")
@@ -413,3 +469,7 @@ def check(col: Collector):
     col.obs.extend(sub.obs)
     # a lost ordering / producer entry leaves the relative order of two tasks to set iteration (hash seed, 32/64-bit hashes)
     c02.inverse_effects(col, "C20.R6", only_indices=("rtasks", "tartasks", "deptasks"))
+    # the schedule is ONE toposort over the union of the start tasks: an order merged from per-start-ref pieces depends on the
+    # iteration order of the (set-valued) start collection
+    from .common import shared
+    shared(col, "C20.R8", [c01._trigger_closure], why="a schedule assembled per start location inherits the hash-seed order of the start set")
